@@ -67,6 +67,7 @@ var _ *openfgav1.RelationReference
 //@   loop 1 invariant is_fresh: fresh(parsedTypeRestrictions)
 //@   loop 1 invariant frame_strings: forall s []string, i int :: isold(s) ==> s[i] == old(s[i])
 //@   loop 1 invariant each: forall i int :: 0 <= i && i < index ==> parsedTypeRestrictions[i] == renderRestriction(restrictions[i])
+//@   loop 1 decreases len(restrictions) - index
 
 // parseThis: "[" + Join(restrictions rendered, ", ") + "]". The engine models strings.Join on a slice of symbolic
 // length as an uninterpreted function that cannot be named in contracts, so the exact text is stated for 0 and 1
@@ -171,6 +172,7 @@ var _ *openfgav1.RelationReference
 //@   ensures err_msg:   err != nil ==> errmsg(err) == nestingMsg(typeName, relationName)
 //@   loop 1 invariant bounds: 0 <= index && index <= len(children)
 //@   loop 1 invariant wf_so_far: forall i int :: 0 <= i && i < index ==> wfKinds(children[i])
+//@   loop 1 decreases len(children) - index
 //@   loop 1 invariant counted: validator.occurred == old(validator.occurred)
 //@        + hoistedUnion(relationDefinition, firstThisFrom(relationDefinition.GetUnion().GetChild(), 0), index)
 
@@ -190,6 +192,7 @@ var _ *openfgav1.RelationReference
 //@   ensures err_msg:   err != nil ==> errmsg(err) == nestingMsg(typeName, relationName)
 //@   loop 1 invariant bounds: 0 <= index && index <= len(children)
 //@   loop 1 invariant wf_so_far: forall i int :: 0 <= i && i < index ==> wfKinds(children[i])
+//@   loop 1 decreases len(children) - index
 //@   loop 1 invariant counted: validator.occurred == old(validator.occurred)
 //@        + hoistedIntersection(relationDefinition, firstThisFrom(relationDefinition.GetIntersection().GetChild(), 0), index)
 
@@ -321,6 +324,7 @@ var _ *openfgav1.RelationReference
 //@   loop 1 invariant frame_strings: forall s []string, i int :: isold(s) ==> s[i] == old(s[i])
 //@   -- loop 2: printed in the documented order, one "\ncondition ..." block per name
 //@   loop 2 invariant bounds: 0 <= index && index <= len(conditionNames) && fresh(conditionNames)
+//@   loop 2 decreases len(conditionNames) - index
 //@   loop 2 invariant ordered: forall i int, j int :: 0 <= i && i < j && j < len(conditionNames) ==> condOrder(model.GetConditions(), conditionNames[i], conditionNames[j]) <= 0
 //@   loop 2 invariant shape: parsedConditionsString == "" || hasPrefix(parsedConditionsString, "\ncondition ")
 //@   loop 2 invariant frame_strings: forall s []string, i int :: isold(s) ==> s[i] == old(s[i])
@@ -352,6 +356,7 @@ var _ *openfgav1.RelationReference
 //@   loop 1 invariant frame_strings: forall s []string, i int :: isold(s) ==> s[i] == old(s[i])
 //@   -- loop 2: printed in the documented order, one line per name
 //@   loop 2 invariant bounds: 0 <= index && index <= len(relationsList) && fresh(relationsList)
+//@   loop 2 decreases len(relationsList) - index
 //@   loop 2 invariant ordered_by_name: !isModularModel ==> (forall i int, j int :: 0 <= i && i < j && j < len(relationsList) ==> relationsList[i] <= relationsList[j])
 //@   loop 2 invariant ordered_by_module: isModularModel ==> (forall i int, j int :: 0 <= i && i < j && j < len(relationsList)
 //@                                         ==> relOrder(typeDefinition.GetMetadata().GetRelations(), relationsList[i], relationsList[j]) <= 0)
@@ -384,8 +389,10 @@ var _ *openfgav1.RelationReference
 //@   -- loop 2 looks for the first type definition with a module
 //@   loop 2 invariant bounds: 0 <= index && index <= len(typeDefs)
 //@   loop 2 invariant none_modular_yet: forall i int :: 0 <= i && i < index ==> typeDefs[i].GetMetadata().GetModule() == ""
+//@   loop 2 decreases len(typeDefs) - index
 //@   -- loop 3 prints the types in slice order (plain model) or in the documented module order (modular model)
 //@   loop 3 invariant bounds: 0 <= index && index <= len(typeDefs) && len(typeDefinitions) == index
 //@   loop 3 invariant modular_order: isModularModel ==> (forall i int, j int :: 0 <= i && i < j && j < len(typeDefs) ==> typeOrder(typeDefs[i], typeDefs[j]) <= 0)
 //@   loop 3 invariant plain_model: !isModularModel ==> (forall i int :: 0 <= i && i < len(typeDefs) ==> typeDefs[i].GetMetadata().GetModule() == "")
 //@   loop 3 invariant each_type: forall i int :: 0 <= i && i < index ==> hasPrefix(typeDefinitions[i], "\ntype ")
+//@   loop 3 decreases len(typeDefs) - index
